@@ -19,6 +19,27 @@
 
 #include "sim.h"
 
+#ifdef SIM_COVERAGE
+/* coverage build only (driver `cov`): every run writes its own raw profile; the driver merges them */
+extern int __llvm_profile_write_file(void);
+extern void __llvm_profile_set_filename(const char *);
+static void
+cov_flush(void)
+{
+	static char fn[512];
+	const char * pre = getenv("SIM_COV_PREFIX");
+
+	if (pre == NULL)
+		return;
+	snprintf(fn, sizeof(fn), "%s.%d.profraw", pre, (int)getpid());
+	__llvm_profile_set_filename(fn);
+	(void)__llvm_profile_write_file();
+}
+#define COV_FLUSH() cov_flush()
+#else
+#define COV_FLUSH() ((void)0)
+#endif
+
 /* ================= PRNG ================= */
 static uint64_t
 mix64(uint64_t z)
@@ -290,6 +311,7 @@ sim_viol(const char * oracle, const char * sig, const char * fmt, ...)
 		R->hash = thash;
 		if (sim_verbose)
 			fprintf(stderr, "VIOLATED %s [%s] (after an injected allocation failure): %s\n", R->oracle, R->sig, R->msg);
+		COV_FLUSH();
 		_exit(10);
 	}
 	if (!sim_selected(oracle)) {
@@ -313,6 +335,7 @@ sim_viol(const char * oracle, const char * sig, const char * fmt, ...)
 	R->hash = thash;
 	if (sim_verbose)
 		fprintf(stderr, "VIOLATED %s [%s]: %s\n", R->oracle, R->sig, R->msg);
+	COV_FLUSH();
 	_exit(10);
 }
 
@@ -329,6 +352,7 @@ sim_internal(const char * fmt, ...)
 	R->hash = thash;
 	if (sim_verbose)
 		fprintf(stderr, "INTERNAL: %s\n", R->msg);
+	COV_FLUSH();
 	_exit(12);
 }
 
@@ -338,6 +362,7 @@ sim_finish(void)
 
 	R->done = 1;
 	R->hash = thash;
+	COV_FLUSH();
 	_exit(0);
 }
 
